@@ -31,6 +31,8 @@ CaseOut(c) ==
       t  == <<c.n, c.s>>
   IN [kind |-> "loc", k |-> c.k, zone |-> sg.zone, n |-> c.n, s |-> c.s, f |-> c.f, route |-> c.route, set |-> Setting(c.route, sg.zone),
       cls |-> OverlapClass(sg, t),
+      \* the transition within three hours of the instant, if any (0: none), for the coverage report
+      near |-> LET q == CountLeq(sg.tr, Plus(t, 10800), 0, Len(sg.tr)) IN IF q > 0 /\ Leq(Plus(sg.tr[q].at, -10800), t) THEN q ELSE 0,
       t  |-> SecsText(c.n, c.s), th |-> HalfText(c.n, c.s), tn |-> UnitText(c.n, c.s, c.f, 9), iso |-> IsoText(c.n, c.s, 0, 0),
       x  |-> [i \in 1..Len(LocProbes) |-> IF IsParse(LocProbes[i]) THEN ParseInput(LocProbes[i], sg, t, c.f) ELSE ""]]
 InitLoc == x \in LocCases
